@@ -349,6 +349,12 @@ func (vf *VerifyFunc) doCall(st *State, fr *Frame, in ssa.Instruction, cc *ssa.C
 	// a fatal runtime error ("unlock of unlocked mutex"), which the interceptor cannot contain
 	if top && vf.fc != nil && vf.fc.Flags["recovered"] && vf.lockcheck && !(key != "" && eng.isPure(key)) && !strings.HasPrefix(key, "builtin:") && !strings.HasPrefix(key, "(*sync.") {
 		vf.unwindCheck(st, fr, in, label)
+		// ... and a mutex that is held here without a deferred unlock stays locked for good when the callee panics: the
+		// interceptor reports the fault, every later request on that lock waits forever
+		if g := st.locksCoveredByDefers(); g != "true" && vf.calleeMayPanic(st, fr, key, static) {
+			st.check("lock", fmt.Sprintf("panic-in-callee-leaves-no-lock-held/%s#%d", label.name, label.ord), "C14",
+				"if this call panics (the callee is not known to be panic-free) the interceptor contains it, but a mutex held here without a deferred unlock is never released", st.pos(in), g)
+		}
 	}
 
 	// call-site assertions (before)
@@ -1539,4 +1545,38 @@ func (e *Engine) pbGetter(fn *ssa.Function) (int, bool) {
 	}
 	res = fa.Field
 	return res, true
+}
+
+// calleeMayPanic: false for callees whose panic points are checked elsewhere or that have none: helpers that are inlined
+// (their panic points become obligations of the caller), generated protobuf accessors, and functions under a contract
+// that is itself verified panic-free without relying on a recovery interceptor.
+func (vf *VerifyFunc) calleeMayPanic(st *State, fr *Frame, key string, static *ssa.Function) bool {
+	eng := vf.eng
+	fc := eng.cs.Funcs[key]
+	if fr.fn.Pkg != nil {
+		if sc, ok := eng.cs.Funcs[key+"@"+fr.fn.Pkg.Pkg.Path()]; ok {
+			fc = sc
+		}
+	}
+	if fc == nil {
+		if g := stripTypeArgs(key); g != key {
+			fc = eng.cs.Funcs[g]
+		}
+	}
+	if fc != nil {
+		return !(fc.Kind == "func" && fc.Flags["nopanic"] && !fc.Flags["recovered"])
+	}
+	if static == nil {
+		return true
+	}
+	if static.Pkg != nil && strings.HasPrefix(static.Pkg.Pkg.Path(), modPath+"/protobuf/") && len(static.Blocks) == 0 {
+		return false
+	}
+	if _, ok := eng.pbGetter(static); ok {
+		return false
+	}
+	if eng.inlinable(static, len(st.frames)) && !vf.onStack(st, static) {
+		return false
+	}
+	return true
 }
